@@ -3,12 +3,12 @@ module verifsim
 go 1.26.8
 
 require (
+	filippo.io/edwards25519 v1.2.0
 	github.com/MixinNetwork/mixin v0.0.0
 	github.com/dgraph-io/ristretto/v2 v2.4.2
 )
 
 require (
-	filippo.io/edwards25519 v1.2.0 // indirect
 	github.com/cespare/xxhash/v2 v2.3.0 // indirect
 	github.com/dgraph-io/badger/v4 v4.9.4 // indirect
 	github.com/dustin/go-humanize v1.0.1 // indirect
